@@ -524,6 +524,10 @@ func c10R4(c *Ctx) {
 						okF = h.amount != nil && h.start != nil
 					}
 				}
+				// or a local that holds amount+startingPoint (hoisted sub-expression)
+				if !okF && isSumOfCells(cmp.Y, h.amount, h.start) {
+					okF = true
+				}
 			}
 			// the next offset stored alongside
 			okOff := false
@@ -534,6 +538,9 @@ func c10R4(c *Ctx) {
 							if (cellOf(bo.X) == h.amount && cellOf(bo.Y) == h.start) || (cellOf(bo.X) == h.start && cellOf(bo.Y) == h.amount) {
 								okOff = h.amount != nil && h.start != nil
 							}
+						}
+						if !okOff && isSumOfCells(st2.Val, h.amount, h.start) {
+							okOff = true
 						}
 					}
 				}
@@ -695,4 +702,28 @@ func c10R6(c *Ctx) {
 		c.check(len(bad) == 0, FuncName(h)+"/collection-readonly", P.Pos(h.Pos()), FuncName(h),
 			"harvesting writes only memory of its own", "harvesting writes through the collection or to package-level state ("+strings.Join(bad, "; ")+"): what a request returns then depends on the requests made before it (items skipped, repeated, or the chain ended early)")
 	}
+}
+
+// isSumOfCells: v is, as a linear form, the sum of the values of the two
+// single-assignment locals a and b (for instance a local `resumeAt := amount +
+// startingPoint`, possibly captured by a closure).
+func isSumOfCells(v ssa.Value, a, b *ssa.Alloc) bool {
+	if a == nil || b == nil {
+		return false
+	}
+	val := func(c *ssa.Alloc) (linForm, bool) {
+		sts := storesToAlloc(c)
+		if len(sts) != 1 {
+			return linForm{}, false
+		}
+		return lin(sts[0].Val), true
+	}
+	fa, ok1 := val(a)
+	fb, ok2 := val(b)
+	if !ok1 || !ok2 {
+		return false
+	}
+	want := fa.add(fb, 1)
+	got := lin(v)
+	return got.String() == want.String()
 }
